@@ -42,7 +42,8 @@ char *partner_fqdn;	/**< the DNS name of the remote server (forward-lookup), or 
  * @brief send QUIT to the remote server and close the connection
  *
  * This will properly shut down the connection to the remote server but will
- * not terminate the program.
+ * not terminate the program. The settings of the smtproute (client certificate,
+ * expect_tls) are kept, they are also needed for the next host that is tried.
  */
 void
 quitmsg(void)
@@ -66,7 +67,6 @@ quitmsg(void)
 	partner_fqdn = NULL;
 	free(rhost);
 	rhost = NULL;
-	free_smtproute_vals();
 }
 
 void
@@ -74,6 +74,7 @@ net_conn_shutdown(const enum conn_shutdown_type sd_type)
 {
 	if ((sd_type == shutdown_clean) && (socketd >= 0)) {
 		quitmsg();
+		free_smtproute_vals();
 	} else if (socketd >= 0) {
 		close(socketd);
 		socketd = -1;
